@@ -1,1 +1,2 @@
 CONSTANT MaxCore = 2
+CONSTANT PairSeps = 3
